@@ -111,6 +111,8 @@ class Policy(object):
         self.resume = True
         self.lazy_start = 0  # >0: up to that many times an offered task is started only after a further event (relaxes A2)
         self.lazy_after_rerun = False
+        self.rerun_probe = False  # one rerun request at a symbolic boundary while the workflow is not completed
+        self.intermediate = False  # in-flight actions may report canceling/pausing before their final status
         self.rerun = None  # None | "default" | "explicit": one rerun request once the workflow has completed
         self.rerun_steps = 4
         self.rerun_ghost = False
@@ -163,6 +165,7 @@ class Env(object):
         self.rejected = 0
         self.counters = {}
         self.extra_req_done = False
+        self.probe_done = False
         self.ctl_done = False
         self.script = []
         self.defers = 0
@@ -485,6 +488,25 @@ class Env(object):
                 if self.ch.lazy("cancel_at").is_(b):
                     self.request(S.CANCELED if p.cancel_as_canceled else S.CANCELING)
                     self.offers()
+        if p.rerun_probe and not self.probe_done and self.status() not in COMPLETED and self.ch.lazy("probe_at").is_(b):
+            # a rerun request while the workflow is not completed must be rejected and change nothing
+            self.probe_done = True
+            before = self.snapshot()
+            st0 = self.status()
+            self.log.append("RERUN?@" + st0)
+            self.calls.append(["request_workflow_rerun", "probe"])
+            try:
+                self.c.request_workflow_rerun()
+                accepted = True
+            except exc.WorkflowIsActiveAndNotRerunableError:
+                accepted = False
+            except Exception as e:
+                self.violation("escape", "request_workflow_rerun() on a %s workflow raised %s: %s" % (st0, type(e).__name__, e), call="request_workflow_rerun", exc=type(e).__name__)
+            self.counters["rerun_probes"] = self.counters.get("rerun_probes", 0) + 1
+            if accepted:
+                self.violation("rerun-accepted-while-not-completed", "C17 a rerun request was accepted while the workflow was %s (now %s, offering %s)" % (st0, self.status(), [t["id"] for t in self.c.get_next_tasks()]), status=st0)
+            if self.snapshot() != before:
+                self.violation("rejected-rerun-effect", "C17 the rerun request rejected on a %s workflow changed the persisted state" % st0, status=st0)
         if p.requests and not self.extra_req_done and self.ch.lazy("req_at").is_(b):
             self.extra_req_done = True
             kind = REQUEST_KINDS[self.ch.pick("req_kind", len(REQUEST_KINDS))]
@@ -526,6 +548,20 @@ class Env(object):
             idx = self.ch.pick("r%d" % self.step, min(len(self.inflight), p.max_inflight)) if ordered else 0
             idx = min(idx, len(self.inflight) - 1)
             act = self.inflight[idx]
+            if p.intermediate and (self.cancel_req or self.pause_req) and not getattr(act, "intermediate", False):
+                # A3: after a cancel/pause request the provider may cascade it to the action, which
+                # then reports the intermediate status before its final one
+                if self.ch.flag("im%d" % self.step):
+                    act.intermediate = True
+                    st_ = S.CANCELING if self.cancel_req else S.PAUSING
+                    self.log.append("~%s:%s" % (act.label(), st_))
+                    if act.item is None:
+                        self._update(act.task, act.route, events.ActionExecutionEvent(st_), ["action", st_])
+                    else:
+                        self._update(act.task, act.route, events.TaskItemActionExecutionEvent(act.item, st_), ["item", act.item, st_])
+                    self.step += 1
+                    self.offers()
+                    continue
             status, result = self.choose_outcome(act)
             self.report(idx, status, result)
             self.step += 1
